@@ -696,4 +696,24 @@ theorem C12_backup_guess_premise (n : Nat) (scale : Int) (hn : 0 < n) (hb2 : n.l
       rw [hcast]; push_cast; exact hreal
     exact_mod_cast this
 
+
+/-- **`inverse` on the back-up path** (magnitudes of 1075 to 2^32 bits): with the modelled guess - under the
+    one assumption on the float kernel stated in `C12_backup_guess_premise` - the iteration terminates
+    within `p + 10` steps and whatever is returned is within strictly less than one unit of its last
+    digit of `1/x` -/
+theorem C12_inverse_total_backup_path {est : Nat → Nat} (hest : EstOK est) (n : Nat) (scale : Int) (p : Nat) (m : Mode)
+    (fuel : Nat) (hn : 0 < n) (hb2 : n.log2 + 1 ≤ 2 ^ 32) (hp : 1 ≤ p) (hfuel : p + 10 ≤ fuel) (v32 : Nat)
+    (hfin : (v32 / 2 ^ 23) % 2 ^ 8 ≠ 2 ^ 8 - 1)
+    (hv : |((floatValQ 8 23 v32 : ℚ) : ℝ) -
+        ((F64.valQ ln2Bits : ℚ) : ℝ) * Real.exp (-((backupFrac (n.log2 + 1) : ℚ) : ℝ) * Real.log 10)| ≤
+      1 / 50 * (((F64.valQ ln2Bits : ℚ) : ℝ) * Real.exp (-((backupFrac (n.log2 + 1) : ℚ) : ℝ) * Real.log 10))) :
+    ∃ g R, invGuessBackup (n.log2 + 1) scale v32 = some g ∧
+      invLoop est ⟨n, scale⟩ p fuel Dec.zero (invNext ⟨n, scale⟩ g) = some R ∧
+      implInverse est n scale p m g fuel = R.withPrecisionRound p m ∧
+      ∀ res, implInverse est n scale p m g fuel = some res →
+        |res.value - 1 / (Dec.mk n scale).value| < (10 : ℚ) ^ (-res.scale) := by
+  obtain ⟨g, hg1, hg2, hg3⟩ := C12_backup_guess_premise n scale hn hb2 v32 hfin hv
+  obtain ⟨R, hR1, hR2, hR3⟩ := C12_inverse_total hest n scale p m g fuel hn hp hg2 hg3 hfuel
+  exact ⟨g, R, hg1, hR1, hR2, hR3⟩
+
 end BigDec
